@@ -17,8 +17,8 @@ chk("C04", "exploration", "runtime monitoring: exit status and diagnostics of th
     "DESIGN.md §4 C04")
 
 chk("C03", "exploration", "runtime monitoring: valued reports of the real binary against an exact-rational mark-to-market reference with an explicit truncation budget; planted missing prices",
-    "Valued reports (-v V) of generated journals with tree-shaped price histories are compared cell by cell with quantity x latest price computed in exact rationals; the allowed deviation is an explicit bound derived from the number of 8-decimal truncation steps. Journals with a planted missing price must fail with a diagnostic and empty stdout.",
-    "Trusts the reference price walk (forest-shaped graphs only, so chains are unique), the derived window corollary (value shown = mark at column minus mark before the window) and the budget formula; --close=false reports only.",
+    "Valued reports (-v V) of generated journals with tree-shaped price histories are compared cell by cell (asset / liability rows = quantity x latest price, mirror income rows = accumulated revaluation gain, other rows = bookings at their booking day's price, all computed in exact rationals; with and without period closing); the allowed deviation is an explicit bound derived from the number of 8-decimal truncation steps. Journals with a planted missing price must fail with a diagnostic and empty stdout.",
+    "Trusts the reference price walk (forest-shaped graphs only, so chains are unique), the derived window corollary (value shown = mark at column minus mark before the window) and the budget formula; with --close (half of the reports) the reference models closing in valued reports (income / expense / mirror rows restart at every shown period start, Equity:Equity receives what was closed).",
     "DESIGN.md §4 C03")
 
 chk("C06", "exploration", "runtime monitoring: repeated executions of the real binary under varied GOMAXPROCS / schedule-perturbation hook / map randomisation, byte comparison of stdout and exit status",
@@ -86,7 +86,7 @@ chk("C16", "exploration", "runtime monitoring: real transcode output read by an 
 
 chk("C20", "exploration", "runtime monitoring: real portfolio weights / returns output against the real valued balance report and an exact-rational value reference",
     "For generated portfolio journals, `portfolio weights` is compared per date and commodity with the share of the A/L totals that `balance -v V --csv -s .` reports, group rows with the sum of their members, the top level with 1, the row tree with the universe file and -m mapping; `portfolio returns` must print one line per reference-calendar period, 0.0% for constant-price periods with external flows only and V_end/V_start-1 (to 0.1%) for periods without flows.",
-    "Returns are judged only in the two families the statement pins down; dates with a zero portfolio total are skipped; float tolerance 2e-6 on weights.",
+    "Returns are judged only in the two families the statement pins down; bookings annotated @performance(targets) - also when @accrue spreads them, by an expansion of the harness's own - count as performance, not as external flows (the unchanged tree satisfies this on every judged period); periods holding an annotation with an empty target list are not judged; dates with a zero portfolio total are skipped for weights; float tolerance 2e-6 on weights.",
     "DESIGN.md §4 C20")
 
 chk("C18", "fault_enumeration", "runtime monitoring under fault injection: RLIMIT_FSIZE at every byte offset, read-only directory / unreadable file under a dropped uid, SIGKILL injected by strace at each syscall of the rewrite, plus a syscall-trace conformance monitor",
